@@ -6,5 +6,6 @@ cd /verif
 git -C /repo apply /verif/seeded/$S/patch.diff || exit 2
 ./check $P > seeded/$S/check2.out 2>&1; R=$?
 git -C /repo checkout -- .
+python3 tools/translate.py all > /dev/null 2>&1   # the fragments regenerated from the patched tree must not stay behind
 grep -E "^VIOLATION|oracle failed|correspondence broken|^OK property" seeded/$S/check2.out | cut -c1-300 | head -4
 if [ $R -eq 1 ]; then python3 tools/seed_history.py $S "$T"; else echo "STILL MISSED rc=$R"; rm -f seeded/$S/check2.out; fi
